@@ -22,6 +22,8 @@ class StartRequests(Observer):
         self.single_targets = {}    # (S nick, inc, app, plan start) -> set of targets
         self.rules_cache = {}
         self.recent_local = {}
+        self.abort_entry = {}
+        self.handler_plans = {}
         self.stops = {}
         self.history = {}
         self.running_seen = {}
@@ -35,6 +37,22 @@ class StartRequests(Observer):
     def v(self, prop, clause, detail, signature=None):
         if len(self.violations) < 30:
             self.violations.append(Violation(prop, clause, detail, self.sim.now_us, signature or clause))
+
+    def on_boot(self, sim, inst):
+        """ Plans created by the running failure handler use the strategy of the rules, whatever the user asked before:
+        record when the handler releases a restart job (tap on an instance attribute, no source change). """
+        handler = inst.supvisors.failure_handler
+        orig = handler.trigger_jobs
+        obs = self
+
+        def trigger_jobs():
+            before = {a.application_name for a in handler.restart_application_jobs} | \
+                     {p.application_name for p in handler.restart_process_jobs}
+            # the requests are pushed synchronously inside the call: the record must exist before
+            for app in before:
+                obs.handler_plans[(inst.nick, inst.incarnation, app)] = sim.now_us
+            return orig()
+        handler.trigger_jobs = trigger_jobs
 
     # --- feeds ----------------------------------------------------------------------------------
     def _hist(self, nick, inc, ns, state, expected=True):
@@ -84,6 +102,8 @@ class StartRequests(Observer):
                 self._note_failure(sim, inst, ns)
         elif ptype == PublicationHeaders.STATE and body['fsm_statename'] == 'DISTRIBUTION':
             self.distribution_entry[(inst.nick, inst.incarnation)] = sim.now_us
+        elif ptype == PublicationHeaders.STATE and body['fsm_statename'] in ('ELECTION', 'SYNCHRONIZATION'):
+            self.abort_entry[(inst.nick, inst.incarnation)] = sim.now_us
 
     def before_operation(self, item, fired):
         if fired and item['kind'] == 'rpc' and item['method'].startswith('supvisors.'):
@@ -209,8 +229,15 @@ class StartRequests(Observer):
             self.v('C04', 'already-running', dict(detail, state=shown[2], identifiers=sorted(shown[1])),
                    'already-running')
         pend = self._pending(s, now)
-        if any(r['ns'] == ns for r in pend):
-            self.v('C04', 'duplicate-request', detail, 'duplicate-request')
+        dup = [r for r in pend if r['ns'] == ns]
+        if dup:
+            # recorded finding: entering ELECTION / SYNCHRONIZATION aborts the jobs but not the request in flight; a
+            # new plan (crash handled while the instance declares itself Master) then asks again
+            t_abort = self.abort_entry.get((s.nick, s.incarnation), -1)
+            sig = 'duplicate-request'
+            if dup[0]['t_us'] < t_abort <= now:
+                sig = 'duplicate-request:first-request-in-flight-forgotten-by-job-abort'
+            self.v('C04', 'duplicate-request', dict(detail, first_target=dup[0]['target']), sig)
         # load cap on the target node
         node = self._node_of(identifier)
         running_load = 0
@@ -338,7 +365,8 @@ class StartRequests(Observer):
         t_op = self.ops.get((s.nick, app), (-1,))[0]
         ctx = s.supvisors.context
         # a restart of the application (RESTART_APPLICATION repair, stop then start) is not a distribution plan
-        restarted = sim.now_us - self.stops.get((s.nick, s.incarnation, app), -10**12) < 90 * US
+        restarted = sim.now_us - self.stops.get((s.nick, s.incarnation, app), -10**12) < 90 * US or \
+            sim.now_us - self.handler_plans.get((s.nick, s.incarnation, app), -10**12) < 90 * US
         if t_dist is not None and t_op < t_dist and arules.get('managed') and not restarted:
             a_seq = arules.get('start_sequence', 0)
             if a_seq == 0:
@@ -368,7 +396,9 @@ class StartRequests(Observer):
         ab = self.aborted.get((s.nick, s.incarnation, app))
         if ab is not None:
             t_ab, level, strategy, q = ab
-            plan_restart = max(self.ops.get((s.nick, app), (-1,))[0], t_dist if t_dist is not None else -1)
+            plan_restart = max(self.ops.get((s.nick, app), (-1,))[0], t_dist if t_dist is not None else -1,
+                               self.stops.get((s.nick, s.incarnation, app), -1),
+                               self.handler_plans.get((s.nick, s.incarnation, app), -1))
             if plan_restart < t_ab and sim.now_us - t_ab < 180 * US and seq > level:
                 self.v('C03', 'request-after-required-failure', dict(detail, failed=q, strategy=strategy,
                                                                      failed_level=level, start_sequence=seq),
@@ -379,9 +409,13 @@ class StartRequests(Observer):
         if not self.app_plans_only:
             return
         mine = [r for r in self.requests if r['s'] == inst.nick and r['inc'] == inst.incarnation and r['ns'] == ns
-                and sim.now_us - r['t_us'] < 180 * US]
+                and sim.now_us - r['t_us'] < 180 * US and not r.get('resolved')]
         if not mine:
             return
+        # a local event is published after its whole handling (which may already have started a new plan): the failure
+        # belongs to the oldest unresolved request, and is dated at that request
+        failed_request = mine[0]
+        failed_request['resolved'] = True
         ctx = inst.supvisors.context
         app = ctx.applications.get(ns.split(':')[0])
         if app is None:
@@ -392,7 +426,7 @@ class StartRequests(Observer):
         r = proc.rules.serial()
         if r['required'] and r['starting_failure_strategy'] in ('ABORT', 'STOP'):
             self.aborted[(inst.nick, inst.incarnation, app.application_name)] = \
-                (sim.now_us, r['start_sequence'], r['starting_failure_strategy'], ns)
+                (failed_request['t_us'], r['start_sequence'], r['starting_failure_strategy'], ns)
             self._probe('required_start_failure')
 
     # --- C04 converse ---------------------------------------------------------------------------
@@ -448,7 +482,10 @@ class StartRequests(Observer):
         op = self.ops.get((s.nick, app))
         # distribution rule: one instance / one node for all the requests of one application plan
         if distribution in ('SINGLE_INSTANCE', 'SINGLE_NODE'):
-            plan_t0 = max(t_dist, op[0] if op else -1)
+            # a plan begins with DISTRIBUTION / restart_sequence, an accepted operation, or the stop phase of a restart
+            # of the application (RESTART_APPLICATION repair): each plan chooses its instance / node afresh
+            plan_t0 = max(t_dist, op[0] if op else -1, self.stops.get((s.nick, s.incarnation, app), -1),
+                          self.handler_plans.get((s.nick, s.incarnation, app), -1))
             key = (s.nick, s.incarnation, app, plan_t0)
             prev = self.single_targets.setdefault(key, [])
             for p_target, p_t in prev:
@@ -468,7 +505,16 @@ class StartRequests(Observer):
                    for r in self._pending(s, now, liberal=True)):
                 self._probe('placement_skipped_pending')
                 return
+        t_stop = self.stops.get((s.nick, s.incarnation, app), -1)
+        t_handler = self.handler_plans.get((s.nick, s.incarnation, app), -1)
+        if op and t_handler >= op[0]:
+            op = None   # the plan comes from the failure handler: strategy of the rules
         if op and op[0] > t_dist:
+            # stop requests of S for this application after the operation: either the stop phase of this very
+            # restart_application, or a later restart by the failure handler (which uses the rules strategy): ambiguous
+            if t_stop > op[0] and not (op[1] == 'restart_application' and t_stop - op[0] < 60 * US):
+                self._probe('placement_attribution_ambiguous')
+                return
             strategy = op[2][0]
         elif t_dist >= 0 or True:
             strategy = arules.get('starting_strategy') if arules.get('managed') else None
